@@ -343,7 +343,7 @@ func doTx(c *vh.Ctx, cf *vh.CaseFile, tc *txCase) {
 			}
 		}
 	}()
-	done := srv.waitFor(len(msgs), false, waitTimeout+time.Duration(totalBytes/200000)*time.Second)
+	done := srv.waitFor(len(msgs), false, 3*waitTimeout+time.Duration(totalBytes/50000)*time.Second)
 	if !done {
 		// a stuck transfer leaves the producer blocked in SendMessage: stopping
 		// the protocols releases it
